@@ -375,6 +375,50 @@ func race07Main(args []string) {
 			}
 		}
 	}
+	// retrievals that are REFUSED in a smaller size group after a larger one has matched (a range field only
+	// one-field conjunctions use, assigned a text its holder cannot read) among good ones, on every goroutine: each good
+	// retrieval must return what it returns alone, whichever pooled collector it draws
+	for _, kind := range []string{"kgroups", "compact"} {
+		c := eCase{Kind: kind, Policy: "error", Configs: map[int]string{2: "ext_range"}}
+		sv := func(f int, s string) eExpr { return eExpr{F: f, Inc: true, V: tvStr(s)} }
+		c.Docs = []eDoc{
+			{ID: 10, Cons: []eConj{{sv(0, "sport"), {F: 1, Inc: true, V: tvSlice("[]int", tvInt("int", 1))}}}},
+			{ID: 20, Cons: []eConj{{{F: 2, Inc: true, Op: 1, V: tvInt("int", 18)}}}},
+			{ID: 30, Cons: []eConj{{sv(0, "sport")}}},
+		}
+		_, idx := buildCase(&c)
+		good := []eQuery{{A: []eAssign{{F: 0, V: tvStr("sport")}}}, {A: []eAssign{{F: 2, V: tvInt("int", 30)}}}, {}, {A: []eAssign{{F: 0, V: tvStr("sport")}, {F: 1, V: tvInt("int", 1)}}}}
+		bad := eQuery{A: []eAssign{{F: 0, V: tvStr("sport")}, {F: 1, V: tvInt("int", 1)}, {F: 2, V: tvStr("unknown")}}}
+		alone := make([]seqAnswer, len(good))
+		for i := range good {
+			alone[i] = answer(idx, &good[i])
+		}
+		var wg sync.WaitGroup
+		for g := 0; g < 4; g++ {
+			wg.Add(1)
+			go func(g int) {
+				defer wg.Done()
+				for k := 0; k < 300; k++ {
+					if k%3 == g%3 {
+						safeCall(func() { idx.Retrieve(bad.build()) })
+					}
+					i := (k + g) % len(good)
+					var d be.DocIDList
+					var e error
+					p := safeCall(func() { d, e = idx.Retrieve(good[i].build()) })
+					atomic.AddInt64(&ops, 1)
+					ids := docIDs(d)
+					sort.Slice(ids, func(a, b int) bool { return ids[a] < ids[b] })
+					want := append([]int64{}, alone[i].docs...)
+					sort.Slice(want, func(a, b int) bool { return want[a] < want[b] })
+					if p || (e != nil) != alone[i].err || (!alone[i].err && !reflect.DeepEqual(ids, want)) {
+						report(fmt.Sprintf("%s, retrievals refused in a smaller size group among good ones: query %d returned %v, alone it returns %v", kind, i, ids, want))
+					}
+				}
+			}(g)
+		}
+		wg.Wait()
+	}
 	fmt.Printf("RACE07 ops=%d mismatches=%d indexes=%d roaring=%v\n", ops, mismatches, len(sh), ridx != nil)
 	for _, m := range msgs {
 		fmt.Println("MISMATCH", m)
